@@ -813,8 +813,74 @@ def r210(facts, res):
         res.ok(R, key, loc_of(b), 'the common bits of every word pair are ORed into `%s`' % b.name_of(stores[0][0]))
 
 
+def r211(facts, res):
+    """gc() gives every kept state the number of states kept BEFORE it.  When that number is read off the vector of kept states
+    (`kept.len()`), it must be read before the state itself is pushed; read afterwards, every kept state is numbered one too
+    high and every edge of a collected graph points at the state after the intended one (seeded change C01-gc-offsets-after-push;
+    the suite has no grammar on which states are collected)."""
+    R = 'R2.11'
+    bs = [x for x in facts.lib_bodies(['lrtable']) if strip_generics(x.path) == 'lrtable::pager::gc']
+    if len(bs) != 1:
+        return res.lost(R, 'lrtable::pager::gc not found')
+    b = bs[0]
+    w = widening_walker(b, facts, max_paths=4096)
+    ps = w.run(0)
+    if w.overflow:
+        return res.lost(R, 'path bound exceeded in gc')
+    n, bad, forms = 0, [], set()
+    for p in ps:
+        evs = [e for e in p.events if e[0] == 'call' and e[2]]
+        pushes = [(i, e) for i, e in enumerate(evs) if e[2]['name'] == 'push' and len(e[3]) == 2]
+        idx = [(i, e) for i, e in pushes if 'StIdx' in fmt_term(e[3][1])[:8] or (isinstance(e[3][1], tuple) and e[3][1] and e[3][1][0] in ('agg', 'variant') and 'StIdx' in str(e[3][1][1]))]
+        if not idx:
+            continue
+        for i, e in idx:
+            n += 1
+            v = e[3][1]
+            lens = [(j, l) for j, l in enumerate(evs) if l[2]['name'] == 'len' and j < i and term_has(v, lambda y, t=l[5]: y == t)]
+            if not lens:
+                forms.add('position minus states dropped so far' if term_has(v, lambda y: isinstance(y, tuple) and len(y) > 1 and y[0] == 'bin' and str(y[1]).startswith('Sub')) else 'other')
+                continue
+            forms.add('length of the kept vector')
+            for j, l in lens:
+                recv = strip_ref(l[3][0]) if l[3] else None
+                # pushes onto the vector whose length was read, before the read, on this very pass
+                earlier = [k for k, pe in pushes if k < j and k != i and pe[3] and root_of(strip_ref(pe[3][0])) == root_of(recv)]
+                if earlier:
+                    bad.append('line %s: the new number is the length of the kept vector read AFTER the state was pushed (line %s)' % (b.term(e[1]).get('line'), b.term(evs[earlier[0]][1]).get('line')))
+    key = 'new-number-counts-earlier-states'
+    if bad:
+        res.bad(R, key, loc_of(b), '; '.join(sorted(set(bad))[:2]) + ': every kept state is numbered one too high', {'function': b.path})
+    elif n:
+        res.ok(R, key, loc_of(b), 'the number recorded for a state counts the states kept before it (%d recording passes; form: %s)' % (n, ', '.join(sorted(forms))))
+    else:
+        res.ok(R, key, loc_of(b), 'no per-state push of a new number in a loop of gc: renumbering has another shape (R2.6/R2.9 judge it); not analysed')
+
+
+def root_of(t):
+    """the local a (possibly mutated / widened / dereferenced) vector term stands for"""
+    seen = 0
+    while isinstance(t, tuple) and t and seen < 20:
+        seen += 1
+        if t[0] in ('mutated', 'widen', 'deref', 'ref') and len(t) > 1:
+            nxt = [x for x in t[1:] if isinstance(x, tuple)]
+            if t[0] == 'mutated':
+                k = t[1]
+                if isinstance(k, tuple) and k and k[0] == 'mutated':
+                    return root_of(k)
+                return ('local', k[0] if isinstance(k, tuple) and k else k)
+            if t[0] == 'widen':
+                return ('local', t[3]) if len(t) > 3 else t
+            if nxt:
+                t = nxt[0]
+                continue
+        break
+    return t
+
+
 def run(facts, res):
     r29(facts, res)
+    r211(facts, res)
     r210(facts, res)
     r25(facts, res)
     r21(facts, res)
